@@ -28,7 +28,7 @@ def NFA.epsLoop (N : NFA σ τ) : Nat → Sched → List σ → List σ → Exce
     match pickAt todo i with
     | none => .ok result
     | some (q, rest) =>
-      let Q1 := sdiff (N.succ q N.eps) result
+      let Q1 := sdiff (dedup (N.succ q N.eps)) result   -- a Python set: no duplicates
       NFA.epsLoop N fuel s' (sunion result Q1) (sunion rest Q1)
 
 /-- `epsilon_closure(N, S)` for a set argument (`{q}` for a single state). -/
